@@ -204,10 +204,14 @@ def region_of(qualname, line):
 
 
 def landing_tag(l):
+    inner = str(l['at'][0])
+    # a landing inside the standard library's Connection code (send / recv framing) is named as such: what matters there is
+    # that the pipe message may have been cut between its header and its payload
+    lib = f':in-stdlib:{inner}' if inner.startswith(('Connection.', '_ConnectionBase.')) else ''
     for qn, ln in l.get('stack') or []:
         if qn in RUN_LOOPS:
-            return f'{qn}[{region_of(qn, ln)}]'
-    return str(l['at'][0])
+            return f'{qn}[{region_of(qn, ln)}]' + lib
+    return inner
 
 
 def cause(sim, raised=(), returned=()):
